@@ -27,11 +27,13 @@ EXPLANATION = (
     "vectors just stored. R10: every attribute a container method reads is bound on every constructor path and "
     "before the constructor's own method calls that need it. R11: the tabular export is built from the metric store "
     "and drops exactly the rows whose cycle does not match the conditions in force (explicit ones, or the stored ones "
-    "with subset=True). "
+    "with subset=True). R12: on the slice-cache route and on the augmented label route every cycle's slot is written "
+    "exactly once on every path through the loop: func of exactly the value vector(s) restricted to that cycle, NaN "
+    "exactly when the cycle has no extent. "
     "Not decided: equality of arbitrary user functions under cache on/off; the history "
     "quantifier beyond 'each operation preserves R4'.")
 RULE_TEXT = "one obligation per operator x literal prefix, per counter clause, per metric store, per cache clause"
-FLOORS = {'C15.R1': 30, 'C15.R2': 2, 'C15.R3': 4, 'C15.R4': 2, 'C15.R5': 3, 'C15.R6': 1, 'C15.R7': 1, 'C15.R8': 2, 'C15.R9': 5, 'C15.R10': 1, 'C15.R11': 1}
+FLOORS = {'C15.R1': 30, 'C15.R2': 2, 'C15.R3': 4, 'C15.R4': 2, 'C15.R5': 3, 'C15.R6': 1, 'C15.R7': 1, 'C15.R8': 2, 'C15.R9': 5, 'C15.R10': 1, 'C15.R11': 1, 'C15.R12': 2}
 PINNED_EXPECT = [('C15.R5', 'emd.cycles.get_cycle_vector', 'last boundary'),
                  ('C15.R7', 'emd._cycles_support.map_cycle_to_samples_augmented', 'augmented extent'),
                  ('C15.R8', 'emd._cycles_support.get_augmented_cycle_stat_from_samples', 'possibly-None'),
@@ -54,6 +56,7 @@ def run(ctx):
     ctx.rule(rule_chain_position, 'C15.R9')
     ctx.rule(rule_initialised, 'C15.R10')
     ctx.rule(rule_dataframe, 'C15.R11')
+    ctx.rule(rule_stat_routes, 'C15.R12')
 
 
 # ----------------------------------------------------------------------------------------------
@@ -1378,3 +1381,165 @@ def rule_dataframe(ctx, rid):
         ctx.undecided(rid, fi, c, '%d returning paths' % n)
     else:
         ctx.passed(rid, fi, c, '%d returning paths' % n)
+
+
+# ----------------------------------------------------------------------------------------------
+# C15.R12: the slice-cache route and the augmented label route store, for every cycle, func of exactly that cycle's
+# samples (NaN exactly when the cycle has no extent) - no path through the loop leaves a slot unwritten
+def _is_nan(t):
+    return t in (('ref', 'numpy.nan'), ('ref', 'numpy.NaN'), ('ref', 'math.nan'))
+
+
+def _tuple_route(conds, vals_t):
+    """True / False when the path conditions say that the values are / are not a tuple of vectors, else None"""
+    for cd, tr, ln in conds:
+        if cd[0] == 'call' and cd[1] == 'builtins.isinstance' and len(cd[2]) == 2 and cd[2][0] == vals_t \
+                and cd[2][1] in (('ref', 'builtins.tuple'), ('tuple', (('ref', 'builtins.tuple'), ('ref', 'builtins.list'))),
+                                 ('tuple', (('ref', 'builtins.list'), ('ref', 'builtins.tuple')))):
+            return tr
+    return None
+
+
+def _func_of_extent(val, vals_t, extent, is_tuple=None):
+    """val == func(vals[extent])  or  func(*[v[extent] for v in vals])  (func = the parameter or its default)"""
+    if val[0] == 'callv':
+        callee, fargs = val[1], val[2]
+        if callee != S('func'):
+            return 'the reducer applied is %s, not func' % show(callee)[:30]
+    elif val[0] == 'call':
+        fargs = val[2]
+        if val[1] not in ('numpy.mean',):      # the default of func, resolved by the evaluator
+            return 'the reducer applied is %s, not func' % val[1]
+        if val[3]:
+            return 'the reducer gets extra keywords: %s' % show(val)[:60]
+    else:
+        return 'the value stored is %s' % show(val)[:60]
+    if len(fargs) == 1 and fargs[0] == ('sub', vals_t, extent):
+        if is_tuple is True:
+            return 'a tuple of value vectors is indexed as if it were one vector'
+        return None
+    if len(fargs) == 1 and fargs[0][0] == 'starred' and fargs[0][1][0] == 'comp' and len(fargs[0][1][3]) == 1:
+        comp = fargs[0][1]
+        var, it, conds = comp[3][0]
+        if it == vals_t and not conds and comp[2] == ('sub', var, extent):
+            if is_tuple is False:
+                return 'a single value vector is unpacked element by element as if it were a tuple of vectors'
+            return None
+    return 'the reducer does not receive exactly the value vector(s) restricted to the cycle: %s' % show(val)[:90]
+
+
+def rule_stat_routes(ctx, rid):
+    P = ctx.P
+    for name, kind in (('get_slice_stat_from_samples', 'slice'), ('get_augmented_cycle_stat_from_samples', 'augmented')):
+        fi = P.func(CSUP + name)
+        exits = [e for e in Evaluator(P).run(fi) if e.kind == 'return']
+        ctx.paths += len(exits)
+        c = 'every cycle gets func of exactly its own samples, NaN exactly when it has no extent (no slot left unwritten)'
+        vals_t = S(fi.params[0])
+        bad = None
+        n = 0
+        for e in exits:
+            v = e.value
+            if any(cd[0] == 'call' and cd[1] == 'builtins.isinstance' and len(cd[2]) == 2 and cd[2][1] == vals_t
+                   for cd, tr, ln in e.state.conds):
+                bad = (e, 'isinstance is asked whether a type is an instance of the values (arguments swapped): TypeError for '
+                       'every input')
+                break
+            if v[0] == 's' and '@F' in v[1] and v[1].endswith('post'):
+                out = v[1].split('@')[0]
+                fors = [ls for ls in e.state.loops if ls.kind == 'for']
+                if len(fors) != 1:
+                    ctx.undecided(rid, fi, c, '%d loops on a return path' % len(fors))
+                    return
+                ls = fors[0]
+                if kind == 'slice':
+                    if not (ls.var[0] == 'tuple' and len(ls.var[1]) == 2 and ls.iter_term == ('call', 'builtins.enumerate', (S('slices'),), ())):
+                        if ls.iter_term == ('call', 'builtins.range', (('call', 'builtins.len', (S('slices'),), ()),), ()):
+                            pos, extent = ls.var, ('sub', S('slices'), ls.var)
+                        else:
+                            ctx.undecided(rid, fi, c, 'loop over %s' % show(ls.iter_term)[:60])
+                            return
+                    else:
+                        pos, extent = ls.var[1]
+                else:
+                    pos = ls.var
+                    extent = ('call', CSUP + 'map_cycle_to_samples_augmented', (),
+                              (('cycle_vect', S('cycle_vect')), ('ii', pos), ('phase', S('phase'))))
+                    want_it = ('bin', '+', ('call', 'numpy.max', (S('cycle_vect'),), ()), C(1))
+                    it = ls.iter_term
+                    if not (it[0] == 'call' and it[1] == 'builtins.range' and len(it[2]) == 1 and it[2][0] == want_it):
+                        bad = (e, 'the loop runs over %s, not over the labels 0..max' % show(it)[:50])
+                        break
+                for knd, b in ls.body_states:
+                    n += 1
+                    if any(cd[0] == 'call' and cd[1] == 'builtins.isinstance' and len(cd[2]) == 2 and cd[2][1] == vals_t
+                           for cd, tr, ln in b.conds):
+                        bad = (e, 'isinstance is asked whether a type is an instance of the values (arguments swapped): TypeError '
+                               'for every input')
+                        break
+                    sets = [f for f in b.effects if f[0] == 'setitem' and f[5] == out]
+                    noext = None
+                    for cd, tr, ln in b.conds:
+                        r = _is_none_test(cd, extent)
+                        if r is not None:
+                            noext = (r == tr)
+                    where = 'a cycle without extent' if noext else 'a cycle with samples'
+                    if len(sets) != 1:
+                        bad = (e, '%s: %d stores into the result on one path through the loop (its slot %s)'
+                               % (where, len(sets), 'keeps the initial value' if not sets else 'is written twice'))
+                        break
+                    idx, val = sets[0][2], sets[0][3]
+                    if idx != pos:
+                        bad = (e, 'the result of cycle %s is stored at %s' % (show(pos), show(idx)))
+                        break
+                    if noext:
+                        if not _is_nan(val):
+                            bad = (e, 'a cycle without extent gets %s instead of NaN' % show(val)[:40])
+                            break
+                        continue
+                    if _is_nan(val):
+                        bad = (e, 'a cycle with samples gets NaN (conditions: %s)' % '; '.join(
+                            '%s=%s' % (show(cd)[:40], tr) for cd, tr, ln in b.conds[-2:]))
+                        break
+                    if noext is None and kind == 'slice':
+                        bad = (e, 'the values are sliced without testing whether the cycle has a slice')
+                        break
+                    msg = _func_of_extent(val, vals_t, extent, _tuple_route(b.conds, vals_t))
+                    if msg:
+                        bad = (e, msg)
+                        break
+                if bad:
+                    break
+            elif v[0] == 'call' and v[1] in ('numpy.array', 'numpy.asarray') and v[2] and v[2][0][0] == 'comp':
+                comp = v[2][0]
+                if len(comp[3]) != 1 or comp[3][0][1] != S('slices') or comp[3][0][2]:
+                    ctx.undecided(rid, fi, c, 'comprehension %s' % show(comp)[:80])
+                    return
+                extent = comp[3][0][0]
+                elt = comp[2]
+                n += 1
+                if elt[0] == 'ifexp':
+                    r = _is_none_test(elt[1], extent)
+                    if r is None:
+                        bad = (e, 'the element is selected by %s, not by `slice is None`' % show(elt[1])[:40])
+                        break
+                    some, none_ = (elt[3], elt[2]) if r else (elt[2], elt[3])
+                    if not _is_nan(none_):
+                        bad = (e, 'a cycle without extent gets %s instead of NaN' % show(none_)[:40])
+                        break
+                    msg = _func_of_extent(some, vals_t, extent, _tuple_route(e.state.conds, vals_t))
+                    if msg:
+                        bad = (e, msg)
+                        break
+                else:
+                    bad = (e, 'the values are sliced without testing whether the cycle has a slice: %s' % show(elt)[:60])
+                    break
+            else:
+                ctx.undecided(rid, fi, c, 'returns %s' % show(v)[:80])
+                return
+        if bad:
+            ctx.violation(rid, fi, c, bad[1], node=bad[0].node, path=trace_tail(bad[0].state, 6))
+        elif n == 0:
+            ctx.undecided(rid, fi, c, 'no per-cycle computation found')
+        else:
+            ctx.passed(rid, fi, c, '%d per-cycle paths' % n)
